@@ -917,6 +917,12 @@ static void bvh2dCase(vh::Rng& r, vh::Ctx& c) {
     c.violation(key, d.str());
   };
   long long overl = 0, skippedShared = 0;
+  // brute-force scan once: all overlapping pairs i<j in lexicographic order
+  Pairs ovl;
+  for (int i = 0; i < nE; i++)
+    for (int j = i + 1; j < nE; j++)
+      if (ovB2(eb[i], eb[j])) ovl.emplace_back(i, j);
+  overl = (long long)ovl.size();
   for (int pass = 0; pass < 2; pass++) {
     const Pairs& got = pass ? viaBvh : sweep;
     const char* pname = pass ? "bvh" : "sweep";
@@ -937,23 +943,19 @@ static void bvh2dCase(vh::Rng& r, vh::Ctx& c) {
       }
     }
     // every overlapping pair that is not reported must share an endpoint
-    size_t k = 0;
-    for (int i = 0; i < nE; i++)
-      for (int j = i + 1; j < nE; j++) {
-        if (!ovB2(eb[i], eb[j])) continue;
-        if (pass == 0) overl++;
-        while (k < s.size() && s[k] < std::make_pair(i, j)) k++;
-        if (k < s.size() && s[k] == std::make_pair(i, j)) continue;
-        const EdgeM &a = edges[i], &b = edges[j];
-        bool shared = a.v0 == b.v0 || a.v0 == b.v1 || a.v1 == b.v0 || a.v1 == b.v1;
-        if (!shared) {
-          vh::J d;
-          d.s("why", "missing").i("first", i).i("second", j).raw("box_first", jb(eb[i])).raw("box_second", jb(eb[j]));
-          efail(std::string("edgepair:") + pname + ":missing", d);
-          return;
-        }
-        if (pass == 0) skippedShared++;
+    Pairs miss;
+    std::set_difference(ovl.begin(), ovl.end(), s.begin(), s.end(), std::back_inserter(miss));
+    for (auto& pr : miss) {
+      const EdgeM &a = edges[pr.first], &b = edges[pr.second];
+      bool shared = a.v0 == b.v0 || a.v0 == b.v1 || a.v1 == b.v0 || a.v1 == b.v1;
+      if (!shared) {
+        vh::J d;
+        d.s("why", "missing").i("first", pr.first).i("second", pr.second).raw("box_first", jb(eb[pr.first])).raw("box_second", jb(eb[pr.second]));
+        efail(std::string("edgepair:") + pname + ":missing", d);
+        return;
       }
+    }
+    if (pass == 0) skippedShared = (long long)miss.size();
   }
   {
     Pairs a = sweep, b = viaBvh;
